@@ -540,6 +540,39 @@ def rule_scaling_flag(chk, prog):
         (r.bad if bad else r.ok)(ns + "::Solver / IncSolver::addConstraint", ctor[0].where(), bad or "%d configurations" % n_cfg)
 
 
+def rule_solver_takes_over(chk, prog):
+    r = chk.rule("SOLVER-TAKES-OVER", "every solver constructor (vpsc::Solver, vpsc::IncSolver through its base, Avoid::IncSolver) clears "
+                 "Constraint::active for EVERY constraint it is given, in a loop no iteration of which can skip the store: the blocks it "
+                 "builds hold one variable each, so a flag left over from an earlier solver instance over the same constraints would make "
+                 "reset_active_lm / compute_dfdv follow `active` constraints across blocks (unbounded recursion)", floor=3)
+    for cls in ("vpsc::Solver", "vpsc::IncSolver", "Avoid::IncSolver"):
+        chain = [cls] + [str(b) for b in (prog.records.get(cls) or {}).get("bases", [])]
+        ok_at = None
+        for c in chain:
+            for f in prog.all_functions():
+                if f.kind != "ctor" or f.cls != c or f.body is None or f.tmpl == "pattern" or f.d.get("copy"):
+                    continue
+                g = CFG(f)
+                for lhs, node, op in writes(f):
+                    if op != "=" or written_field(lhs)[0] != c.split("::")[0] + "::Constraint::active" or literal_value(node["ch"][1]) != "false":
+                        continue
+                    loops = [a for a in f.ancestors(node) if a.get("k") in ("ForStmt", "CXXForRangeStmt")]
+                    if not loops:
+                        continue
+                    lp = loops[-1] if False else loops[0]
+                    hdr = norm(lp.get("cond")) + " " + norm(lp.get("init")) + " " + norm(lp.get("range"))
+                    if not any(t in hdr for t in ("< m)", "cs.", "inactive.", "cs)")):
+                        continue
+                    if g.iteration_can_skip(lp, [node["id"]]) is None:
+                        ok_at = ok_at or (f, node)
+        r.count()
+        if ok_at:
+            r.ok(cls, ok_at[0].loc(ok_at[1]))
+        else:
+            fs = [f for f in prog.all_functions() if f.kind == "ctor" and f.cls == cls and f.body is not None]
+            r.bad(cls, fs[0].where() if fs else "", "no constructor of %s (or of its base) clears Constraint::active for all constraints" % cls)
+
+
 def run(chk):
     prog = chk.load()
     from . import c02 as _c02
@@ -551,6 +584,7 @@ def run(chk):
     chk.guard(rule_slack_form, chk, prog)
     chk.guard(rule_scaling_flag, chk, prog)
     chk.guard(rule_who_writes, chk, prog)
+    chk.guard(rule_solver_takes_over, chk, prog)
     r = chk.rule("SIBLING", "every function of libavoid's solver copy (libavoid/vpsc.{h,cpp}) is structurally identical to its libvpsc "
                  "counterpart after alpha-renaming, dropping assertions/casts and unifying the heap ADT (tables/siblings.json lists the "
                  "deliberate differences)", floor=60)
